@@ -143,6 +143,15 @@ def run_c13(facts, out):
             cmpx = _closure_cmp(ctx, n['args'][0])
             if cmpx is None or cmpx is False or not L('time').m(ctx, cmpx):
                 why = why or 'lookup comparator is not `probe.time.total_cmp(&time)`'
+            else:
+                # ... and `time` is the parameter itself, not a re-bound (clamped, shifted) value
+                nm = strip(cmpx).get('name')
+                params = set()
+                for prm in hfn.get('params', []):
+                    params.update(H.pat_bindings(prm))
+                if nm not in params or ctx.inits.get(nm):
+                    why = why or ('the lookup searches for a value derived from the time asked for (`%s` is re-bound '
+                                  'before the search), not for that time itself' % nm)
             fb = LOOKUP_FALLBACK[kind]
             other = 'saturating_sub' if fb == 'checked_sub' else 'checked_sub'
             has = find(ctx, hfn['body'], M(fb, L('i'), K(1)))
@@ -772,6 +781,15 @@ def run_c20(facts, out):
                 ok = bool(dep_td)
                 out.add('SS-C20', gt, 'ticks-need-positive-tick-distance', loc_of(t['sp']), ok,
                         '' if ok else 'the tick loop is not guarded by a test on the tick distance (zero distance never terminates)')
+                # "identically placed on every span": whether a tick is emitted at a distance must not depend
+                # on which span is generated (only its time is mirrored)
+                span_params = [i for i in range(1, g.argc + 1) if 'SliderEventsIter' not in g.locals[i]['s']]
+                dep_span = [sbb for sbb in _control_deps(g, bb)
+                            if _slice_locals(g, op_local(g.term(sbb)['discr'])) & set(span_params)]
+                ok = not dep_span
+                out.add('SS-C20', gt, 'tick-placement-independent-of-span', loc_of(t['sp']), ok,
+                        '' if ok else ('whether a tick is emitted depends on the span being generated (guard at %s): ticks '
+                                       'would not be identically placed on every span') % loc_of(g.term(dep_span[0])['sp']))
         # reversal only under !reversed
         for bb, t in g.calls():
             c = callee_of(t)
@@ -842,9 +860,28 @@ def _reach(body, a, b_):
     return False
 
 
-def _guards(body, bb):
-    """switch blocks that dominate bb and have a successor from which bb is not reachable"""
+def _reach_fwd(body, a, b_):
+    """reachability without back edges (an edge into a dominator of its source): within one loop iteration"""
+    seen = {a}
+    st = [a]
+    while st:
+        x = st.pop()
+        if x == b_:
+            return True
+        for s in body.succ(x):
+            if s in body.dom.get(x, ()) and s != x:
+                continue
+            if s not in seen:
+                seen.add(s)
+                st.append(s)
+    return False
+
+
+def _guards(body, bb, same_iteration=False):
+    """switch blocks that dominate bb and have a successor from which bb is not reachable
+    (same_iteration: ... not reachable before the enclosing loop starts over)"""
     out = []
+    reach = _reach_fwd if same_iteration else _reach
     for d in sorted(body.dom.get(bb, [])):
         if d == bb:
             continue
@@ -852,9 +889,60 @@ def _guards(body, bb):
         if t['k'] != 'switch':
             continue
         succ = body.succ(d)
-        if any(not (s == bb or _reach(body, s, bb)) for s in succ):
+        if any(not (s == bb or reach(body, s, bb)) for s in succ):
             out.append(d)
     return out
+
+
+def _control_deps(body, bb):
+    """switch blocks bb is (transitively) control-dependent on within one loop iteration: from the
+    switch one successor reaches bb before the loop starts over and another does not"""
+    res = []
+    work = [bb]
+    seen = set()
+    while work:
+        x = work.pop()
+        for d, blk in enumerate(body.blocks):
+            if d in seen or d == x or blk['term']['k'] != 'switch' or blk.get('cleanup'):
+                continue
+            succ = body.succ(d)
+            r = [s == x or _reach_fwd(body, s, x) for s in succ]
+            if any(r) and not all(r):
+                seen.add(d)
+                res.append(d)
+                work.append(d)
+    return sorted(res)
+
+
+def _slice_locals(body, l, limit=60):
+    """locals in the backward slice of local l"""
+    seen = set()
+    work = [l]
+    while work and len(seen) < limit:
+        x = work.pop()
+        if x is None or x in seen:
+            continue
+        seen.add(x)
+        for bi, si, kind, s in body.defs.get(x, []):
+            if kind == 'assign':
+                def rec(v):
+                    if isinstance(v, dict):
+                        if 'pl' in v and isinstance(v['pl'], dict) and 'l' in v['pl']:
+                            work.append(v['pl']['l'])
+                        if 'l' in v and 'p' in v and isinstance(v.get('p'), list):
+                            work.append(v['l'])
+                        for vv in v.values():
+                            rec(vv)
+                    elif isinstance(v, list):
+                        for vv in v:
+                            rec(vv)
+                rec(s['rv'])
+            else:
+                for a in s['args']:
+                    pl = op_place(a)
+                    if pl is not None:
+                        work.append(pl['l'])
+    return seen
 
 
 def _slice_fields(body, l, limit=40):
